@@ -1122,6 +1122,8 @@ class Engine:
             return S.vbool(S.set_eq(self.to_set(E(0)), self.to_set(E(1))))
         if name == 'reach1':
             return self.reach1(ev, node, path, spec)
+        if name == 'rind':
+            return self.rind(ev, node, path, spec)
         if name == 'without':
             d, ns_ = E(0), self.to_set(E(1))
             x = z3.FreshConst(S.sort_of(d.ty[1]), 'wx')
@@ -1234,6 +1236,60 @@ class Engine:
             if meth == 'copy':
                 return base
         raise Unsupported('method %s on %r' % (meth, base.ty))
+
+    # ---- reachability (uninterpreted Reach1 with base/step axioms; closure principle by instance)
+    def _jt_of(self, ev, g, x, path):
+        return self.dispatch_block(ev, S.dict_get(g, x), 'jump_targets', None, path, True)
+
+    def reach_pred(self, g):
+        return ufun('Reach1', S.sort_of(g.ty), S.sort_of(T_NAME), S.sort_of(T_NAME), z3.BoolSort())
+
+    def reach1(self, ev, node, path, spec):
+        g, a, b = (ev.ev(x, path, spec) for x in node.args)
+        R = self.reach_pred(g)
+        key = ('reach', g.t.get_id())
+        if key not in self._axiom_keys and ev.is_closed(g.t):
+            self._axiom_keys.add(key)
+            x, y = z3.Const('rx', S.sort_of(T_NAME)), z3.Const('ry', S.sort_of(T_NAME))
+            k = z3.Int('rk')
+            scratch = Path({}, [])
+            prev, self.in_axiom = self.in_axiom, True
+            try:
+                jx = self._jt_of(ev, g, x, scratch)
+                jy = self._jt_of(ev, g, y, scratch)
+            finally:
+                self.in_axiom = prev
+            base = ForAll([x, k], Implies(And(S.dict_has(g, x), 0 <= k, k < S.seq_n(jx)), R(g.t, x, Select(S.seq_arr(jx), k))),
+                          patterns=[Select(S.seq_arr(jx), k)])
+            step = ForAll([x, y, k], Implies(And(R(g.t, x, y), S.dict_has(g, y), 0 <= k, k < S.seq_n(jy)),
+                                              R(g.t, x, Select(S.seq_arr(jy), k))),
+                          patterns=[z3.MultiPattern(R(g.t, x, y), Select(S.seq_arr(jy), k))])
+            path.hyps.append(base)
+            path.hyps.append(step)
+            self.assumptions_used.add('Reach1: least relation closed under base/step (path of >= 1 edge through blocks of the graph); '
+                                      'only base, step and explicitly instantiated closure principles are given to the solver')
+            self.reach_axioms = getattr(self, 'reach_axioms', []) + [base, step]
+        return S.vbool(R(g.t, a.t, b.t))
+
+    def rind(self, ev, node, path, spec):
+        """Closure principle instance (axiom R-ind, DESIGN section 6): a set that contains the successors of `a`
+        and is closed under successors inside the graph contains everything reachable from `a`."""
+        g, a, st = (ev.ev(x, path, spec) for x in node.args)
+        R = self.reach_pred(g)
+        x, y = z3.FreshConst(S.sort_of(T_NAME), 'cx'), z3.FreshConst(S.sort_of(T_NAME), 'cy')
+        k = z3.FreshInt('ck')
+        scratch = Path({}, [])
+        prev, self.in_axiom = self.in_axiom, True
+        try:
+            ja = self._jt_of(ev, g, a.t, scratch)
+            jx = self._jt_of(ev, g, x, scratch)
+        finally:
+            self.in_axiom = prev
+        prem1 = ForAll([k], Implies(And(0 <= k, k < S.seq_n(ja)), Select(st.t, Select(S.seq_arr(ja), k))))
+        prem2 = ForAll([x, k], Implies(And(Select(st.t, x), S.dict_has(g, x), 0 <= k, k < S.seq_n(jx)),
+                                       Select(st.t, Select(S.seq_arr(jx), k))))
+        concl = ForAll([y], Implies(R(g.t, a.t, y), Select(st.t, y)), patterns=[R(g.t, a.t, y)])
+        return S.vbool(Implies(And(prem1, prem2), concl))
 
     def dict_store(self, d, key, val, path):
         """d[key] = val as a named dictionary with two-direction triggered frame axioms."""
@@ -1465,6 +1521,8 @@ class Engine:
                 self.define_result, self.result_defined = True, False
                 try:
                     for cn, text in c.ensures.items():
+                        if c.axiom_clauses is not None and cn not in c.axiom_clauses:
+                            continue   # clauses proved of the body but not offered to callers (they cause matching loops)
                         path.assume(self.spec_formula(ast.parse(text, mode='eval').body, env, path, cm))
                 finally:
                     self.define_result = False
@@ -1559,7 +1617,8 @@ class Engine:
             env2['result'] = res
             req = [self.spec_formula(ast.parse(t, mode='eval').body, env, scratch, cm) for t in c.requires.values()]
             self.define_result, self.result_defined = True, False
-            ens = [self.spec_formula(ast.parse(t, mode='eval').body, env2, scratch, cm) for t in c.ensures.values()]
+            ens = [self.spec_formula(ast.parse(t, mode='eval').body, env2, scratch, cm) for cn_, t in c.ensures.items()
+                   if c.axiom_clauses is None or cn_ in c.axiom_clauses]
         finally:
             self.in_axiom = prev
             self.define_result = False
